@@ -26,12 +26,15 @@ SO = os.path.join(HERE, "build", "faultfs.so")
 OPS = {"write": 1, "rename": 2, "sendfile": 3, "copy_file_range": 4, "open": 5, "unlink": 6, "fsync": 7, "close": 8}
 NAMES = ["out.dat", "ABS", "a b.dat", "é.dat", "a#b.dat", "a?b.dat", "a;b.dat", "c:d.dat", "sub/x.dat", "./rel.dat",
          "r%20x.dat", "50%.dat", "a&b=c.dat", "~x.dat",
+         # a non-ASCII name in DECOMPOSED form (e + combining acute; "é.dat" above is the composed form): the file
+         # system keeps names byte for byte, the two forms are two files
+         "e\u0301-nfd.dat",
          # names near the file system's limit of 255 BYTES: 80 three-byte characters, 250 ASCII letters
          "\u6f22" * 80 + ".dat", "a" * 246 + ".dat",
          # the destination name is a symbolic link to a regular file in another directory (always pre-existing)
          "LINK"]
 # how the name is handed over: the str itself, a pathlib.Path, the bytes file-system encoding (all accepted by open())
-NAME_KINDS = {"out.dat": ("str", "path", "bytes"), "a#b.dat": ("str", "path", "bytes"), "é.dat": ("str", "path", "bytes"),
+NAME_KINDS = {"e\u0301-nfd.dat": ("str", "path", "bytes"), "out.dat": ("str", "path", "bytes"), "a#b.dat": ("str", "path", "bytes"), "é.dat": ("str", "path", "bytes"),
               "ABS": ("str", "path")}
 
 
